@@ -61,7 +61,12 @@ bool MatrixMul::is_canonical(const RCP<const Basic> &scalar,
                 return false;
             }
         }
-        if (is_a<IdentityMatrix>(*factor) || is_a<MatrixMul>(*factor)) {
+        if (is_a<IdentityMatrix>(*factor)) {
+            // Only a scalar multiple of the identity keeps its identity factor
+            if (factors.size() != 1) {
+                return false;
+            }
+        } else if (is_a<MatrixMul>(*factor)) {
             return false;
         } else if (is_a<DiagonalMatrix>(*factor)) {
             num_diag++;
@@ -271,7 +276,11 @@ RCP<const MatrixExpr> matrix_mul(const vec_basic &factors)
         return rcp_static_cast<const MatrixExpr>(keep[0]);
     }
     if (keep.size() == 0 && !ident.is_null()) {
-        return ident;
+        if (eq(*scalar, *one)) {
+            return ident;
+        }
+        // scalar * I
+        keep.push_back(ident);
     }
     return make_rcp<const MatrixMul>(scalar, keep);
 }
